@@ -1,8 +1,11 @@
 ---- MODULE TraceFrag ----
 (* Trace validation for C08 against the P-spec FragProp, in byte units, on
    the exported API of fragmentation.Fragmentation.
-   Events:  reset (mode)                                start of an independent history; mode "strict" or "safety"
-            call  (g, k, first, last, more, bytes, ep)  Process(key k, first, last, more, bytes) invoked by goroutine g
+   Events:  reset (mode, timeout_ms)                    start of an independent history; mode "strict", "safety" or "timed"
+            call  (g, k, first, last, more, bytes, ep, t0, t1)
+                                                        Process(key k, first, last, more, bytes) invoked by goroutine g;
+                                                        t0 / t1: monotonic ms read by the harness before the call / after
+                                                        its return (timed histories are sequential, so t1 is known)
             ret   (g, done, payload)                    its result
    Lin(g) is the internal linearization step TLC places between a call and
    its return (sequential histories: immediately).  Any other event (panic,
@@ -16,12 +19,23 @@
    demanded, only constrained.  In mode "strict" (no timeout, no memory
    limit) a complete consistent set must be delivered, except that a call
    that overlapped another call on the same key may lose its fragment to the
-   other call's release of the reassembler (excused, FragProp!MustDeliver). *)
+   other call's release of the reassembler (excused, FragProp!MustDeliver).
+
+   Mode "timed" (real clock, Fragmentation built with reassembly timeout
+   tmo ms): "fragments older than the reassembly timeout are not combined with
+   newer ones".  The implementation reads its clock somewhere inside the call,
+   i.e. in [t0, t1], so for a fragment h and a later fragment f
+       f.t0 - h.t1 > tmo    h is older than the timeout whenever f is looked at:   never combined with f
+       f.t1 - h.t0 <= tmo   h is younger than the timeout whenever f is looked at
+   and in between nothing is known.  Hence a delivery at f must be complete
+   using only fragments that are not certainly too old, and delivery is only
+   demanded when every fragment seen is certainly young enough.  No margin
+   constants: scheduling jitter only widens [t0, t1]. *)
 EXTENDS FragProp, TraceIO
-VARIABLES seen, pend, mode
+VARIABLES seen, pend, mode, tmo
 G == 0..7
 None == [op |-> "none"]
-tvars == <<seen, pend, mode, l>>
+tvars == <<seen, pend, mode, tmo, l>>
 
 OfKey(k)     == {g \in seen : g.k = k}
 ByteAt(g, b) == g.bytes[b - g.first + 1]
@@ -32,27 +46,31 @@ ConsistentB(S) == Consistent(S) /\ Agree(S) /\ \A g \in S : Len(g.bytes) = g.las
 Datagram(S)    == [i \in 1..(EndOf(S) + 1) |-> ByteAt(CHOOSE g \in S : Covers(g, i - 1), i - 1)]
 Content(S)     == UNION {{g.bytes[i] : i \in DOMAIN g.bytes} : g \in S}
 
-TInit == seen = {} /\ pend = [g \in G |-> None] /\ mode = "strict" /\ l = 1 /\ HWInit
+TInit == seen = {} /\ pend = [g \in G |-> None] /\ mode = "strict" /\ tmo = 0 /\ l = 1 /\ HWInit
 
 \* a history may end with calls still in flight (gate paths are prefixes): reset forgets them
 Reset == /\ IsEvent("reset")
          /\ seen' = {} /\ mode' = Ev.mode /\ pend' = [g \in G |-> None]
+         /\ tmo' = IF Has(Ev, "timeout_ms") THEN Ev.timeout_ms ELSE 0
 
 SameKey(h, k) == pend[h] # None /\ pend[h].f.k = k
 Call == /\ IsEvent("call") /\ pend[Ev.g] = None
-        /\ LET fr == [k |-> Ev.k, first |-> Ev.first, last |-> Ev.last, more |-> Ev.more, bytes |-> Ev.bytes, ep |-> Ev.ep]
+        /\ LET fr == [k |-> Ev.k, first |-> Ev.first, last |-> Ev.last, more |-> Ev.more, bytes |-> Ev.bytes, ep |-> Ev.ep,
+                      t0 |-> IF Has(Ev, "t0") THEN Ev.t0 ELSE 0, t1 |-> IF Has(Ev, "t1") THEN Ev.t1 ELSE 0]
                ov == \E h \in G : SameKey(h, Ev.k)
            IN pend' = [h \in G |-> IF h = Ev.g THEN [op |-> "process", f |-> fr, lin |-> FALSE, ov |-> ov, done |-> FALSE,
                                                       exact |-> FALSE, payload |-> <<>>, pool |-> {}]
                                    ELSE IF SameKey(h, Ev.k) THEN [pend[h] EXCEPT !.ov = TRUE] ELSE pend[h]]
-        /\ UNCHANGED <<seen, mode>>
+        /\ UNCHANGED <<seen, mode, tmo>>
 
 Lin(g) == /\ pend[g] # None /\ ~pend[g].lin
           /\ LET c  == pend[g]
                  f  == c.f
                  S1 == OfKey(f.k) \cup {f}
-                 W  == {h \in S1 : h.ep = f.ep}           \* what may be combined with f
-                 excused == c.ov \/ mode = "safety"
+                 W  == IF mode = "timed" THEN {h \in S1 : f.t0 - h.t1 <= tmo}     \* not certainly older than the timeout
+                                         ELSE {h \in S1 : h.ep = f.ep}           \* what may be combined with f
+                 excused == \/ c.ov \/ mode = "safety"
+                            \/ mode = "timed" /\ \E h \in S1 : f.t1 - h.t0 > tmo  \* something may legitimately have expired
              IN \E d \in BOOLEAN :
                   /\ DoneOK(W, excused, d) = TRUE         \* DeliverOnlyComplete / Incomplete / Timeout / DeliversWhenComplete
                                                           \* ("= TRUE": evaluate as a value; TLC would branch on every \E witness)
@@ -62,7 +80,7 @@ Lin(g) == /\ pend[g] # None /\ ~pend[g].lin
                                           ![g].exact = d /\ ConsistentB(W),
                                           ![g].payload = IF d /\ ConsistentB(W) THEN Datagram(W) ELSE <<>>,
                                           ![g].pool = IF d /\ ~ConsistentB(W) THEN Content(W) ELSE {}]
-          /\ UNCHANGED <<l, mode>>
+          /\ UNCHANGED <<l, mode, tmo>>
 
 Ret == /\ IsEvent("ret") /\ pend[Ev.g] # None /\ pend[Ev.g].lin
        /\ LET c == pend[Ev.g] IN
@@ -72,7 +90,7 @@ Ret == /\ IsEvent("ret") /\ pend[Ev.g] # None /\ pend[Ev.g].lin
                                     /\ \A i \in 1..Len(c.payload) : Ev.payload[i] = c.payload[i]   \* bytes are key-distinct)
                ELSE \A i \in 1..Len(Ev.payload) : Ev.payload[i] \in c.pool            \* inconsistent sender: NeverMixed only
        /\ pend' = [pend EXCEPT ![Ev.g] = None]
-       /\ UNCHANGED <<seen, mode>>
+       /\ UNCHANGED <<seen, mode, tmo>>
 
 TNext == Reset \/ Call \/ Ret \/ \E g \in G : Lin(g)
 TSpec == TInit /\ [][TNext]_tvars
